@@ -266,6 +266,12 @@ def check(prop, tier, seed):
         st["constants"] = m["constants"]
         st["invariants"] = m["invariants"]
         mc_stats.append(st)
+        if m.get("plan"):
+            plan = dict(m["plan"])
+            if plan.get("sws") == "ALL":
+                plan["sws"] = [[]] + [[bool(i & 1), bool(i & 2), bool(i & 4), bool(i & 8)] for i in range(16)]
+            for c in cs:
+                c["plan"] = plan
         for c in cs:
             c.setdefault("origin", "tlc:" + m["module"])
         cases += cs
